@@ -133,13 +133,19 @@ func pkgName(id int, v Variant) string { return fmt.Sprintf("p%d%s", id, v.ident
 
 // Parts returns the verbatim blocks used for a variant.
 func Parts(g *spec.Grammar, id int, v Variant) render.Parts {
+	p2go, p2ts := "", ""
+	if id%2 == 1 {
+		// a second prologue block, as in grammars that keep imports and helper declarations apart
+		p2go, p2ts = "var verifPrologue2 = 2", "let verifPrologue2 = 2;"
+	}
 	if v.IsTS() {
-		return render.Parts{Prologue: "\"use strict\";", Union: unionTS, Epilogue: fill(tsDriver, g, id, v)}
+		return render.Parts{Prologue: "\"use strict\";", Prologue2: p2ts, Union: unionTS, Epilogue: fill(tsDriver, g, id, v)}
 	}
 	return render.Parts{
-		Prologue: "package " + pkgName(id, v) + "\nimport \"fmt\"",
-		Union:    unionGo,
-		Epilogue: "\nfunc GetToken(input string, val *ValType, pos *int) int {\n\treturn verifGetToken(input, val, pos)\n}\n",
+		Prologue2: p2go,
+		Prologue:  "package " + pkgName(id, v) + "\nimport \"fmt\"",
+		Union:     unionGo,
+		Epilogue:  "\nfunc GetToken(input string, val *ValType, pos *int) int {\n\treturn verifGetToken(input, val, pos)\n}\n",
 	}
 }
 
